@@ -1252,3 +1252,33 @@ def c13(ctx):
                                    "trailing or random bytes); inputs whose treatment encoding/json leaves open (duplicate keys, case-variant names, extra "
                                    "members, overflowing numbers, null) only have to start without panic and serve the cache's or the service's value",
                                    "SIGKILL models the process dying during FileCache.Write; power loss is decided on AtomicFile.tla given the validated call order"]
+
+
+# ----------------------------------------------------------------------------- C20
+@check("C20")
+def c20(ctx):
+    th = ctx.thorough
+    results, wd, _ = ctx.godrive("fields", "^TestFields$", env={"VERIF_MAXFIELDS": 3 if th else 2, "VERIF_RANDOM": 6000 if th else 600}, name="fields", timeout=3000)
+    r = ctx.take(results, "fields")
+    tot = validate_trace_chunks(
+        ctx, "FieldsTrace", "FieldsTrace.cfg", os.path.join(wd, "trace.ndjson"), 16 if th else 8,
+        keyfn=lambda e: "fields %s prefix=%r forms=%s mode=%s" % (json.dumps(e["shape"]), e["prefix"], json.dumps(e["forms"]), e["mode"]),
+        whatfn=lambda e, run: "the real ParseFields / NewStore / Apply disagree with the specification's table for struct shape %s, prefix %r, "
+                              "secret forms %s (%s): observed parse=%s names=%s requests=%s outcome=%s err=%s alias=%s live=%s" % (
+            json.dumps(e["shape"]), e["prefix"], json.dumps(e["forms"]), e["mode"], e["parse"], e["names"], e["requests"], e["outcome"], e["err"], e["alias"], e["live"]),
+        timeout=3000)
+    cov = {"evaluations": r["counters"]["cases"], "distinct_nontrivial": r["counters"]["cases"],
+           "rule": "one case = (struct shape: every sequence of up to N fields over 12 field kinds -- string, []byte, Secret, binary unmarshaler value, pointer "
+                   "to one, JSON struct, JSON int, unsupported float64, untagged, empty tag name with and without the json verb, embedded struct with a tagged "
+                   "field -- and 2 secret names, so duplicates occur) x (prefix '', 'p', 'p/q') x (form of each secret's value: JSON object, JSON number, bytes "
+                   "that are neither JSON nor acceptable to the unmarshaler, missing) x (Fields.Apply on a running store / StoreConfig.Structs at construction), "
+                   "built with reflect.StructOf; plus random shapes of 3-6 fields. All cases are distinct by construction. Per case TLC (FieldsTrace) recomputes "
+                   "from Fields.tla: accepted or the rejection reason, the requested secret names in order, what every field holds afterwards (incl. untagged "
+                   "ones), whether a failure was reported, that overwriting a populated []byte field does not change what the store serves, and that Secret "
+                   "fields follow the next poll while copies keep their value",
+           "samples": (r.get("samples") or [])[:3], "shapes_enumerated": r["counters"]["shapes"], "exhaustive": True,
+           "max_fields_enumerated": 3 if th else 2, "trace_lines_validated": tot["validated"], "states": tot["states"], "transitions": tot["generated"],
+           "traces_validated_against_impl": 1}
+    return "exploration", cov, ["struct types are built at run time with reflect.StructOf (exported field names); the two embedded and the unmarshaler types are "
+                                "pre-declared", "prefixes and names are clean slash-separated paths, as the property states",
+                                "arguments that are not pointers to structs are a fixed list of five checked in the driver"]
